@@ -32,7 +32,7 @@ Proof.
 Qed.
 
 (* 4 rules, productions of length <= 3, 5 lexemes *)
-Example calc_fuel : lr_fuel calc_grammar [4; 0; 4; 1; 4]%N = 25456%nat.
+Example calc_fuel : N.of_nat (lr_fuel calc_grammar [4; 0; 4; 1; 4]%N) = 25456%N.
 Proof. vm_compute. reflexivity. Qed.
 
 (* the hypotheses of the validated form are satisfiable *)
